@@ -231,6 +231,7 @@ def _reference(cfg, P, entry, api, dseed):
         return isolate.call("props.c29", "_reference_job", P.templates,
                             (cfg.is_async, cfg.ae, cfg.lc, cfg.cache_size, False, cfg.cls), entry, api, dseed, dict(TG))
     zero = Tape(streams={})
+    clear_process_caches()  # memo tables jinja keeps per process (lru_cache helpers) must not carry the run's entries over
     env = cfg.env(P)
     return _render(env, entry, api, _mk_data(dseed, cfg.is_async, zero), zero)[0]
 
